@@ -125,7 +125,9 @@ def check_flat(ctx, rng, n):
 
     for i in range(n):
         size = rng.choice([512, 4096, 8192 + 512, 1 << 20, (1 << 20) + 1536, 3 * 512])
+        slack = rng.choice([0, 0, 512, 4096])   # (only where a size is given) the file may be longer than the extent
         vf = VirtualFile(size, [(0, size, "pat", 0)])
+        vfs = VirtualFile(size + slack, [(0, size + slack, "pat", 0)])
         view = [{"k": "D", "f": 0, "c": c} for c in range(size // 512)]
         for mode in ("vmdk", "raw", "rawsize"):
             if mode == "vmdk":
@@ -133,7 +135,7 @@ def check_flat(ctx, rng, n):
             elif mode == "raw":
                 op = lambda: disk.SectorAdapter(RawDisk(vf), size)  # noqa: E731
             else:
-                op = lambda: disk.SectorAdapter(RawDisk(vf, size), size)  # noqa: E731
+                op = lambda: disk.SectorAdapter(RawDisk(vfs, size), size)  # noqa: E731
             b = disk.Built(open=op, cell=512, size=size, bases={0: 0}, note={"variant": "flat", "mode": mode, "size": size})
             diskcheck.check_image(ctx, "vmdk", {"flat": size}, view, b, rng, full=size <= 8192 + 512, attrs={"variant": "flat", "mode": mode},
                                   cap=30, sectors_api=_sectors)
@@ -160,6 +162,34 @@ def boundary_images(rng, targets, ncells=4):
                                              compressed=True, lba=lba, tight=rng.random() < 0.5, noise=noise, max_pos=max(noise) + 2)
             exp = b"".join(patterns.npat(q, noise[q], 0, gbytes) if k == "D" else bytes(gbytes) for k, q in ents)
             yield total, lba, vf, exp, noise, ents
+
+
+def check_large_records(ctx, rng):
+    """Stream-optimised grains that hold incompressible data: the stored record is longer than the grain itself (64 KiB and
+    128 KiB grains -> compressed sizes beyond 65535 bytes)."""
+    import zlib
+
+    from dissect.hypervisor.disk.vmdk import VMDK
+    for grain in (128, 256):
+        gbytes = grain * 512
+        for lba in (True, False):
+            ents = [("D", 1), ("Z", 0), ("D", 2), ("D", 3)]
+            noise = {1: gbytes, 2: 0, 3: gbytes}
+            vf, info = enc_vmdk.build_hosted(ents, [True], capacity=4 * grain, grain=grain, gtes=4, footer=True, compressed=True, lba=lba, noise=noise, max_pos=4,
+                                             slot_mult=2)
+            exp = patterns.npat(1, gbytes, 0, gbytes) + bytes(gbytes) + patterns.npat(2, 0, 0, gbytes) + patterns.npat(3, gbytes, 0, gbytes)
+            clen = len(zlib.compress(patterns.npat(1, gbytes, 0, gbytes), 6))
+            ctx.case(key=("large-record", grain, lba), nontrivial=True, sample={"variant": "stream", "grain_bytes": gbytes, "compressed_bytes": clen} if lba else None)
+            try:
+                vf.seek(0)
+                got = VMDK(vf).read(4 * gbytes)
+            except Exception as e:  # noqa: BLE001
+                ctx.violation({"format": "vmdk", "variant": "stream", "fail": "read-raised", "exc": type(e).__name__, "sub": "large-record"},
+                              {"grain": grain, "embedded_lba": lba, "compressed_bytes": clen, "error": repr(e)[:300]})
+                continue
+            if got != exp:
+                ctx.violation({"format": "vmdk", "variant": "stream", "fail": "read-mismatch", "sub": "large-record"},
+                              {"grain": grain, "embedded_lba": lba, "compressed_bytes": clen, "diff": disk.first_diff(exp, got)})
 
 
 def check_compressed_boundary(ctx, rng, thorough):
@@ -213,7 +243,7 @@ def make_trace(tid, rng, nops=25, **opt):
     elif v == "se":
         grain, gtes = 8, 64 * rng.choice([1, 1, 4])
     else:
-        grain, gtes = rng.choice([1, 8, 128]), rng.choice([4, 16, 512])
+        grain, gtes = rng.choice([1, 8, 128]), rng.choice([4, 16, 512, 7, 96, 100])   # the table size need not be a power of two
     gbytes = grain * 512
     ng = rng.randrange(3, 60)
     if v == "cowd":
@@ -295,6 +325,7 @@ def run(ctx):
     diskprop.replay_states(ctx, "vmdk", sts, profs, build, attrs_of=_attrs, cap=56 if thorough else 32, sectors_api=_sectors)
     check_flat(ctx, rng, 12 if thorough else 4)
     check_compressed_boundary(ctx, rng, thorough)
+    check_large_records(ctx, rng)
     diskprop.traces(ctx, "vmdk", lambda tid, r: _mk_trace(tid, r, 40 if thorough else 25, thorough), 320 if thorough else 70,
                     "TraceDisk", "TraceDisk.cfg", lambda t: {"format": "vmdk", "variant": t.get("variant", "multi-extent")})
 
